@@ -307,7 +307,12 @@ def r3(ck, F):
                 if o[0] == "const" and isinstance(o[1], dict):
                     if o[1].get("static") or o[1].get("static_id"):
                         keys.add(o[1].get("static") or o[1].get("static_id"))
-                    for pr in x.raw.get("promoted", []):      # `thread_local!` with a const initialiser: a const LocalKey
+                    proms = list(x.raw.get("promoted", []))
+                    for hp in x.raw.get("inlined", []):      # a helper that was virtually inlined keeps its own promoteds
+                        hb = F.helper_bodies.get(hp)
+                        if hb is not None:
+                            proms += hb.raw.get("promoted", [])
+                    for pr in proms:      # `thread_local!` with a const initialiser: a const LocalKey
                         if pr.get("idx") == o[1].get("promoted"):
                             keys |= {c["def"] for c in pr.get("consts", []) if c.get("def") and "LocalKey" in c.get("ty", "")}
         users[path.rsplit("::", 1)[1] if "Drop" not in path else "CloseGuard::drop"] = keys
